@@ -53,6 +53,41 @@ class _Q(object):
         self.items.append(copy.deepcopy(x))
 
 
+class _OutQ(object):
+    """a partition's output queue as the launch method's queue watcher reads it"""
+    def __init__(self):
+        self.items = []
+
+    def empty(self):
+        return not self.items
+
+    def get(self, *a, **k):
+        return self.items.pop(0)
+
+    def get_nowait(self):
+        import queue
+        if not self.items:
+            raise queue.Empty()
+        return self.items.pop(0)
+
+    def put(self, x):
+        self.items.append(x)
+
+
+class _Idle(BaseException):
+    pass
+
+
+class _WatcherTime(object):
+    """`time` of the launch method module while the queue watcher runs: it sleeps only when no
+    queue had anything for it - then the pass is over"""
+    def time(self):
+        return 0.0
+
+    def sleep(self, dt):
+        raise _Idle()
+
+
 class _Event(object):
     def __init__(self, name, context=None, timestamp=0.0):
         self.name, self.context, self.timestamp = name, context or dict(), timestamp
@@ -124,7 +159,7 @@ class FluxSim(object):
         lm._events      = defaultdict(list)
         lm._events_lock = mt.Lock()
         lm._in_queues   = [_Q() for _ in range(n_parts)]
-        lm._out_queues  = list()
+        lm._out_queues  = [_OutQ() for _ in range(n_parts)]
 
         def start_flux(event_cb):
             lm._event_cb = event_cb
@@ -198,16 +233,34 @@ class FluxSim(object):
         job = self.jobs.get(uid)
         if job is None:
             return False
+        q = self.lm._out_queues[job['part']]
         if not job['id_sent'] and (job['pos'] >= id_pos or job['pos'] >= len(job['events'])):
             job['id_sent'] = True
-            self.lm._job_id_handler(uid, job['fid'])
+            q.put(['job_id', (uid, job['fid'])])
+            self.pump()
             return True
         if job['pos'] < len(job['events']):
             ev = job['events'][job['pos']]
             job['pos'] += 1
-            self.lm._job_event_handler(job['fid'], ev)
+            q.put(['event', (job['fid'], ev)])
+            self.pump()
             return True
         return False
+
+    def pump(self):
+        """the launch method's real queue watcher runs until it finds nothing to do"""
+        from radical.pilot.agent.launch_method import flux as m_lm
+        old = m_lm.time
+        m_lm.time = _WatcherTime()
+        try:
+            self.lm._queue_watcher()
+        except _Idle:
+            pass
+        finally:
+            m_lm.time = old
+
+    def undelivered(self):
+        return sum(len(q.items) for q in self.lm._out_queues)
 
 
 def run(case):
@@ -286,6 +339,13 @@ def run(case):
     while cancels:
         n_delivered = max(n_delivered, cancels[0][0])
         fire_cancels()
+
+    # whatever the partitions reported has been taken off their queues
+    for _ in range(3):
+        sim.pump()
+    if sim.undelivered():
+        sim.bad('C07', 'flux:partition_messages_never_read', '%d messages left on the partitions\' output '
+                'queues: %s' % (sim.undelivered(), [len(q.items) for q in sim.lm._out_queues]))
 
     # ---- oracle
     for u, s in zip(uids, specs):
